@@ -90,7 +90,10 @@ func knownPattern(minSrc string, res rtResult) string {
 	if strings.Contains(res.key, "ExpressionDepthLimitReachedError") {
 		return "depth-limit-after-added-parentheses"
 	}
-	if strings.Contains(res.key, "RestrictedTypeError") && lessThanEmptyFun.MatchString(res.printed) {
+	// the `<` look-ahead reads `fun(..)..{}` as a restricted type; with a parenthesised function expression the
+	// first reported error is MissingEndOfParenthesizedTypeError, the RestrictedTypeError follows
+	if (strings.Contains(res.key, "RestrictedTypeError") || strings.Contains(res.errTypes, "RestrictedTypeError")) &&
+		lessThanEmptyFun.MatchString(res.printed) {
 		return "less-than-before-empty-function-expression"
 	}
 	for _, k := range []string{"less-greater-chain-reads-as-type-arguments", "postfix-on-negative-literal", "empty-entitlement-mapping", "transaction-empty-parameter-list", "empty-else-block",
